@@ -69,6 +69,16 @@ def replay_brinkmann(chk, cases):
                     penalised_field=tmp, field=f, char_field=chi, penalty_factor=real_t(lam), penalty_val=real_t(tv))
                 ofx[t == tv] = tmp[t == tv]
             outs["2d fixed value"] = ofx
+            # ... and its vector form (penalty values per component), destination pre-filled
+            ofv = np.full((2, ny, nx), np.nan, dtype=real_t)
+            for tv in sorted({e["cs"]["b"] for e in es}):
+                tmpv = kernels.as_view(np.full((2, ny, nx), 9, dtype=real_t))
+                kernels.gen("gen_brinkmann_penalise_vs_fixed_val_pyst_kernel_2d", real_t, field_type="vector")(
+                    penalised_vector_field=tmpv, penalty_factor=real_t(lam), char_field=chi, penalty_val=(real_t(tv), real_t(-tv)), vector_field=np.stack([f, -f]))
+                ofv[0][t == tv] = tmpv[0][t == tv]
+                ofv[1][t == tv] = tmpv[1][t == tv]
+            outs["2d fixed value vector x"] = ofv[0]
+            outs["2d fixed value vector y"] = -ofv[1]
             # Lagrangian variant: (u + c dt v) / (1 + c dt), c = lambda, dt = chi
             from sopht.numeric.immersed_boundary_ops.experimental.BrinkmannBoundaryForcing import BrinkmannBoundaryForcing as BBF
 
